@@ -29,6 +29,7 @@ type pK struct {
 }
 
 func (k pK) Hello() string { return k.path + ".Hello()" }
+func (k pK) Twin() pK      { return mkKEnd(k.path + ".Twin()") }
 func (k *pK) Shout() string {
 	if k == nil {
 		return "nil.Shout()"
@@ -56,9 +57,9 @@ func (r *pR) Shout() string {
 	}
 	return r.path + ".Shout()"
 }
-func (r pR) Child() pK      { return mkK(r.path + ".Child()") }
-func (r pR) ChildPtr() *pK  { k := mkK(r.path + ".ChildPtr()"); return &k }
-func (r pR) NilChild() *pK  { return nil }
+func (r pR) Child() pK     { return mkK(r.path + ".Child()") }
+func (r pR) ChildPtr() *pK { k := mkK(r.path + ".ChildPtr()"); return &k }
+func (r pR) NilChild() *pK { return nil }
 
 func mkK(p string) pK {
 	k := mkKEnd(p)
